@@ -13,12 +13,10 @@
      name), header = u32le(len after the strip) ++ u32le(name count) ++ [0] (use_arith is always 0).
    * tokenize: maximal runs of ASCII alphanumeric / non-alphanumeric bytes; the 126th call of the
      iterator returns the whole remainder when it is not empty.
-   * parse_u32 = lexical_core::parse::<u32> (complete parser, standard format): ONE OPTIONAL LEADING
-     '+' (lexical-parse-integer 1.0.6 algorithm.rs parse_sign!: `Some(&b'+') if !no_positive` is
-     consumed for unsigned types too; no_positive_mantissa_sign is false in the standard format), then
-     at least one byte, all of them '0'..'9', value <= u32::MAX (leading zeros never overflow).  A '-'
-     is not consumed for an unsigned type, so it is an invalid digit.  The '+' can only matter for the
-     126th token (the remainder), the only token that can mix non-alphanumerics and digits.
+   * parse_u32 (as repaired by /repo fc00545): Some n iff the byte string is non-empty, all of it
+     '0'..'9', and its value is <= u32::MAX (leading zeros never overflow).  Before the repair
+     lexical_core::parse::<u32> also consumed one leading '+', which could only matter for the 126th
+     token (the unsplit remainder) and lost the sign there.
    * build_first_diff / build_diff, with names_indices (a HashMap filled with
      entry(name).or_insert(i) for i >= 1 only: name 0 is never inserted) modelled as an association
      list of first occurrences.  `diffs` is kept most recent first, so diffs[i - delta] is element
@@ -166,15 +164,13 @@ Fixpoint digits_val (l : list N) (acc : N) : option N :=
     else None
   end.
 
-(* lexical_core::parse::<u32> *)
+(* parse_u32 (repaired, /repo fc00545): only a byte string made of ASCII digits is handed to
+   lexical_core::parse::<u32>; the empty string and a value above u32::MAX are errors there.
+   (Before the repair one leading '+' was accepted, which a numeric token cannot reproduce.) *)
 Definition parse_u32 (s : list N) : option N :=
-  let s' := match s with
-            | b :: r => if b =? 43 then r else s
-            | [] => s
-            end in
-  match s' with
+  match s with
   | [] => None
-  | _ :: _ => digits_val s' 0
+  | _ :: _ => digits_val s 0
   end.
 
 Definition starts_with_0 (s : list N) : bool :=
